@@ -113,8 +113,13 @@ def gen_cases(seed, n, prefix="g"):
         wmode = rng.below(3)
         edges = [(u, v, None if wmode == 0 else 1 + rng.below(3), None) for (u, v) in E]
         absent = max(names) + 1 + rng.below(3)
-        out.append({"id": "%s%d" % (prefix, i), "spec": list(spec), "shape": shape,
-                    "nodes": [[x, None] for x in decl], "edges": [list(e) for e in edges], "absent": absent})
+        case = {"id": "%s%d" % (prefix, i), "spec": list(spec), "shape": shape,
+                "nodes": [[x, None] for x in decl], "edges": [list(e) for e in edges], "absent": absent}
+        if i % 5 == 2 and names:
+            # a multi-step build: after the edges, one or two existing nodes are re-added (add_node on an existing
+            # name = attribute update); the components and searches must not change
+            case["readd"] = [names[(7 * i + k) % len(names)] for k in range(1 + i % 2)]
+        out.append(case)
     return out
 
 
@@ -195,13 +200,14 @@ class CompProp(props.BaseProp):
 
     def to_harness(self, c):
         return "\n".join(["case %s" % c["id"], "spec %d %d %d %d %d %d" % tuple(c["spec"]),
-                          graph_lines(c), "absent %d" % c["absent"], "end"])
+                          graph_lines(c), "absent %d" % c["absent"]] +
+                         (["readd %s" % " ".join(str(x) for x in c["readd"])] if c.get("readd") else []) + ["end"])
 
     def to_coq(self, c):
-        return "mkcc %s %s" % (coq_graph(c), hist.z(c["absent"]))
+        return "mkcc %s %s %s" % (coq_graph(c), hist.z(c["absent"]), hist.zl(c.get("readd", [])))
 
     def case_json(self, c):
-        return {k: c[k] for k in ("id", "spec", "nodes", "edges", "absent")}
+        return dict({k: c[k] for k in ("id", "spec", "nodes", "edges", "absent")}, readd=c.get("readd", []))
 
     def case_from_json(self, j):
         j = dict(j)
